@@ -189,6 +189,48 @@ def exitDecision : List String :=
    "  if self.exit:",
    "    sys.exit(not self.result.wasSuccessful())"]
 
+def tfrInit : List String :=
+  ["def(self, a0, a1):",
+   "  TestResult.__init__(self)",
+   "  self.result = ExtendedToOriginalDecorator(a0)",
+   "  self.semaphore = a1",
+   "  self._test_start = None",
+   "  self._in_test = False",
+   "  self._global_tags = (set(), set())",
+   "  self._test_tags = (set(), set())"]
+
+def tfrSetShouldStop : List String :=
+  ["def(self, a0):"]
+
+def e2sInit : List String :=
+  ["def(self, a0):",
+   "  super().__init__([a0])",
+   "  TestControl.__init__(self)",
+   "  self._started = False",
+   "  self._tags = TagContext()",
+   "  self.__now = None"]
+
+def e2sStartTestRun : List String :=
+  ["def(self):",
+   "  super().startTestRun()",
+   "  self._tags = TagContext()",
+   "  self.shouldStop = False",
+   "  self.__now = None",
+   "  self._started = True"]
+
+def e2sGetFailfast : List String :=
+  ["def(self):",
+   "  return len(self.targets) == 2"]
+
+def e2sSetFailfast : List String :=
+  ["def(self, a0):",
+   "  if a0:",
+   "    if len(self.targets) == 2:",
+   "      return",
+   "    self.targets.append(StreamFailFast(self.stop))",
+   "  else:",
+   "    del self.targets[1:]"]
+
 end TTV.SrcRef.ResCtlSrc
 
 namespace TTV.SrcRef.EtodSrc
@@ -417,5 +459,109 @@ def gotUserException : List String :=
    "    del a0",
    "  self._exceptions.append(v1)",
    "  return self.exception_caught"]
+
+def caseInit : List String :=
+  ["def(self, *a0, **a1):",
+   "  v0 = a1.pop('runTest', None)",
+   "  super().__init__(*a0, **a1)",
+   "  self._reset()",
+   "  v1 = self._get_test_method()",
+   "  if v0 is None:",
+   "    v0 = getattr(v1, '_run_test_with', self.run_tests_with)",
+   "  self.__RunTest = v0",
+   "  if getattr(v1, '__unittest_expecting_failure__', False):",
+   "    setattr(self, self._testMethodName, _expectedFailure(v1))",
+   "  self.__exception_handlers = []",
+   "  self.exception_handlers = [(self.skipException, self._report_skip), (self.failureException, self._report_failure), (_ExpectedFailure, self._report_expected_failure), (_UnexpectedSuccess, self._report_unexpected_success), (Exception, self._report_error)]"]
+
+def caseReset : List String :=
+  ["def(self):",
+   "  self._cleanups = []",
+   "  self._unique_id_gen = itertools.count(1)",
+   "  self._traceback_id_gens = {}",
+   "  self.__setup_called = False",
+   "  self.__teardown_called = False",
+   "  self.__details = None"]
+
+def expectFailure : List String :=
+  ["def(self, a0, a1, *a2, **a3):",
+   "  self._add_reason(a0)",
+   "  try:",
+   "    a1(*a2, **a3)",
+   "  except self.failureException:",
+   "    v0 = sys.exc_info()",
+   "    try:",
+   "      self._report_traceback(v0)",
+   "      raise _ExpectedFailure(v0)",
+   "    finally:",
+   "      del v0",
+   "  else:",
+   "    raise _UnexpectedSuccess(a0)"]
+
+def useFixture : List String :=
+  ["def(self, a0):",
+   "  try:",
+   "    a0.setUp()",
+   "  except MultipleExceptions as v0:",
+   "    if fixtures is not None and v0.args[-1][0] is fixtures.fixture.SetupError:",
+   "      gather_details(v0.args[-1][1].args[0], self.getDetails())",
+   "    raise",
+   "  except BaseException:",
+   "    v1 = sys.exc_info()",
+   "    try:",
+   "      if hasattr(a0, '_details') and a0._details is not None:",
+   "        gather_details(a0.getDetails(), self.getDetails())",
+   "    except BaseException:",
+   "      self._report_traceback(v1)",
+   "      raise",
+   "    else:",
+   "      reraise(*v1)",
+   "  else:",
+   "    self.addCleanup(a0.cleanUp)",
+   "    self.addCleanup(gather_details, a0.getDetails(), self.getDetails())",
+   "    return a0"]
+
+def reportError : List String :=
+  ["@staticmethod",
+   "def(self, a0, a1):",
+   "  a0.addError(self, details=self.getDetails())"]
+
+def reportExpectedFailure : List String :=
+  ["@staticmethod",
+   "def(self, a0, a1):",
+   "  a0.addExpectedFailure(self, details=self.getDetails())"]
+
+def reportFailure : List String :=
+  ["@staticmethod",
+   "def(self, a0, a1):",
+   "  a0.addFailure(self, details=self.getDetails())"]
+
+def reportSkip : List String :=
+  ["@staticmethod",
+   "def(self, a0, a1):",
+   "  if a1.args:",
+   "    v0 = a1.args[0]",
+   "  else:",
+   "    v0 = 'no reason given.'",
+   "  if not isinstance(v0, str):",
+   "    v0 = str(v0)",
+   "  self._add_reason(v0)",
+   "  a0.addSkip(self, details=self.getDetails())"]
+
+def reportUnexpectedSuccess : List String :=
+  ["@staticmethod",
+   "def(self, a0, a1):",
+   "  a0.addUnexpectedSuccess(self, details=self.getDetails())"]
+
+def runCleanups : List String :=
+  ["def(self, a0):",
+   "  v0 = False",
+   "  while self.case._cleanups:",
+   "    v1, v2, v3 = self.case._cleanups.pop()",
+   "    v4 = self._run_user(v1, *v2, **v3)",
+   "    if v4 is self.exception_caught:",
+   "      v0 = True",
+   "  if v0:",
+   "    return self.exception_caught"]
 
 end TTV.SrcRef.DetailSrc
